@@ -145,6 +145,13 @@ pub fn build_by_item_impl(attr: TokenStream, item_impl: &mut ItemImpl) -> Result
         return Err(e);
     }
     let item_impl = &*item_impl;
+    // The lint attributes of the user's impl (written outside or inside the block) apply to the impls made from it as well.
+    let lints = item_impl
+        .attrs
+        .iter()
+        .filter(|a| crate::item_type::is_lint_attr(a))
+        .map(|a| &a.meta);
+    let lints = quote!(#(#[#lints])*);
     let span = Span::call_site();
     let message = "must be used with `impl {Trait} for {Type}`";
     let t = item_impl
@@ -195,6 +202,7 @@ pub fn build_by_item_impl(attr: TokenStream, item_impl: &mut ItemImpl) -> Result
                     let r_expr = change_owned(quote!(__rhs), &rhs, impl_r_ref, call_r_ref);
                     quote! {
                         #[automatically_derived]
+                        #lints
                         impl #impl_g #binary_trait<#impl_rhs> for #impl_this #where_g {
                             type Output = #output;
                             fn #binary_func(self, __rhs: #impl_rhs) -> Self::Output {
@@ -209,6 +217,7 @@ pub fn build_by_item_impl(attr: TokenStream, item_impl: &mut ItemImpl) -> Result
                 let l_expr = change_owned(quote!(self), &this, true, call_l_ref);
                 quote! {
                     #[automatically_derived]
+                    #lints
                     impl #impl_g #assign_trait<#rhs> for #this #where_g {
                         fn #assign_func(&mut self, __rhs: #rhs) {
                             *self = <#l as #binary_trait<#rhs>>::#binary_func(#l_expr, __rhs)
@@ -247,6 +256,7 @@ pub fn build_by_item_impl(attr: TokenStream, item_impl: &mut ItemImpl) -> Result
                 let rhs = &rhs_orig;
                 ts_binary.extend(quote! {
                     #[automatically_derived]
+                    #lints
                     impl #impl_g #binary_trait<#rhs> for #this #where_g {
                         type Output = #this;
                         fn #binary_func(mut self, __rhs: #rhs) -> Self::Output {
